@@ -12,7 +12,7 @@ RULE = ('random programs (3-9 statements: var/assignment operators/if-else/while
         'representable numbers incl. durations, printed with minimal parentheses per the documented precedence table and '
         'evaluated twice by ConfigCompiler::CompileText + Expression::Evaluate; operator typing matrix (every binary operator '
         'x every pair of operand kinds); precedence pairs (a op1 b op2 c for all operator pairs); scoping/closure/this '
-        'templates; Type objects and typeof (every operand kind x every primitive type, Type fields, constructor calls); union/intersection (0-4 arguments, duplicates, null, scalars, mixed kinds); match() glob patterns x texts, array form with MatchAll/MatchAny/other modes; references (&local/&this member/&global/&unknown/&a.b/&a[i]/&*p/&p, reads, assignments and compound assignments through *p, Reference#get/#set, closures capturing references, invalid operands); const, namespace blocks and using imports (constness rules, scoping inside the block, lookup order local > this > imports in textual order > System > Types > globals, imports that are dictionaries/namespaces/arrays/scalars/null); Json.encode/decode (all operand kinds, nested containers, escapes, malformed texts, nesting limit, round trip); evaluation-order family: else-if chains with 0-4 branches with/without else over overlapping conditions and with probes that log the evaluation order, nested chains, chains as values, argument/array/dictionary/use()/parameter lists with >= 3 elements, ||/&& chains, statement lists, right-nested ternaries, same-operator chains; closure-state family (closures with 0-2 parameters x use-lists of 0-2 variables that read/assign/+= captured variables, redeclare locals, rely on unset body locals, nested closures, recursion through captured function values, each called 2-3 times interleaved with outer mutations); callbacks that resize the array they iterate (map/filter/any/all); loop-mutates-iterated family (for over array / dictionary k=>v / keys() / range(len) / locals / this / globals / a namespace block, while with a container condition, Array#map/filter/any/all/reduce callbacks x body that adds after or before the current key, removes the current / an earlier / a later element, replaces the current / next / a later value, clears, clears and refills, rebinds the variable - directly, through an alias, a called closure or a global - always / on the first / second iteration / at one key, before or after the order-observable log entry, with an iteration counter and a 30-iteration emergency exit; each on the main thread, a 512 KiB thread and a coroutine stack); loop-mutated-random (random programs with loops into whose bodies mutations of the iterated collection are injected, preferring - by the extracted model - those whose loop runs at least twice); loops that freeze the iterated container and Array#sort comparators that change the array (expected values, hostile stream); depth-limit programs (recursion and nesting around 300); recorded crash reproducers; programs broken at a '
+        'templates; Type objects and typeof (every operand kind x every primitive type, Type fields, constructor calls); union/intersection (0-4 arguments, duplicates, null, scalars, mixed kinds); match() glob patterns x texts, array form with MatchAll/MatchAny/other modes; references (&local/&this member/&global/&unknown/&a.b/&a[i]/&*p/&p, reads, assignments and compound assignments through *p, Reference#get/#set, closures capturing references, invalid operands); const, namespace blocks and using imports (constness rules, scoping inside the block, lookup order local > this > imports in textual order > System > Types > globals, imports that are dictionaries/namespaces/arrays/scalars/null); Json.encode/decode (all operand kinds, nested containers, escapes, malformed texts, nesting limit, round trip); evaluation-order family: else-if chains with 0-4 branches with/without else over overlapping conditions and with probes that log the evaluation order, nested chains, chains as values, argument/array/dictionary/use()/parameter lists with >= 3 elements, ||/&& chains, statement lists, right-nested ternaries, same-operator chains; closure-state family (closures with 0-2 parameters x use-lists of 0-2 variables that read/assign/+= captured variables, redeclare locals, rely on unset body locals, nested closures, recursion through captured function values, each called 2-3 times interleaved with outer mutations); callbacks that resize the array they iterate (map/filter/any/all); loop-mutates-iterated family (for over array / dictionary k=>v / keys() / range(len) / locals / this / globals / a namespace block, while with a container condition, Array#map/filter/any/all/reduce callbacks x body that adds after or before the current key, removes the current / an earlier / a later element, replaces the current / next / a later value, clears, clears and refills, rebinds the variable - directly, through an alias, a called closure or a global - always / on the first / second iteration / at one key, before or after the order-observable log entry, with an iteration counter and a 30-iteration emergency exit; each on the main thread, a 512 KiB thread and a coroutine stack); loop-mutated-random (random programs with loops into whose bodies mutations of the iterated collection are injected, preferring - by the extracted model - those whose loop runs at least twice); error-then-retry (in ONE environment on one stack: a succeeding call A, a failing call B, B, B, A, B compiled anew, B three times in a loop body under try/except, A - for regex with unbalanced parentheses/brackets, bad escapes, bad quantifiers, very long patterns, cidr_match, Math.*, DateTime, Json.decode of malformed text, get_object(s) with wrong types, and modelled built-ins; identical expressions must have identical outcomes: B an error every time, A the same value every time; same-group and cross-group pairs, three stacks); loops that freeze the iterated container and Array#sort comparators that change the array (expected values, hostile stream); depth-limit programs (recursion and nesting around 300); recorded crash reproducers; programs broken at a '
         'known token (syntax error position); hostile stream: mutated programs, random bytes, deep nesting, deep recursion on '
         'main thread / 512 KiB thread / 256 KiB coroutine stack. Candidates whose model result leaves the exact-number domain '
         'are dropped before the run. non-trivial = program with at least 3 AST nodes whose evaluation did not end in a '
@@ -1818,6 +1818,75 @@ def fam_loop_hostile(rnd, n):
     return (ran[:n - n // 8] + rest)[:n]
 
 
+# ----------------------------------------------------------------------------- error-then-retry
+def q(s): return esc_str(s)
+
+
+# natives with per-call state are the target: [succeeding calls], [failing calls] per group; a failing call must fail EVERY time
+RETRY_GROUPS = {
+    'regex': (
+        ['regex(%s, %s)' % (q(p), q(t)) for p, t in (('^Hel', 'Hello'), ('^Hel', 'World'), ('l+o$', 'Hello'), ('[0-9]+', 'abc'), ('(a|b)c', 'xbc'), ('.', 'x'), ('^$', ''))]
+        + ['regex("^a", ["ab", "ac"])', 'regex("^a", ["ab", "xc"], MatchAny)', 'regex("^a", ["xb", "xc"], MatchAny)'],
+        ['regex(%s, %s)' % (q(p), q(t)) for p in ('(Hel', 'Hel)', '((a)', '(a))', '[a-', '[abc', 'a[', '[z-a]', '[[:foo:]]', 'a{2,1}', '*a', '+', '?', 'a**', 'a{1}{2}{', '(?', '(?<x', '(?P<n>a)(?P<n>b)',
+                                                  '\\', 'a\\', '(' * 40, '(' * 3000 + 'a', 'a' * 4000 + '(', '[' + 'a-' * 2000, '(a' * 500 + ')' * 499)
+         for t in ('Hello', 'a')]
+        + ['regex("(Hel", ["Hello", "x"])', 'regex("[a-", ["a"], MatchAny)', 'regex("^a", { })', 'regex("^a")', 'regex()']),
+    'cidr_match': (
+        ['cidr_match("10.0.0.0/8", "10.1.2.3")', 'cidr_match("10.0.0.0/8", "11.1.2.3")', 'cidr_match("10.0.0.0", "10.1.2.3")', 'cidr_match("192.168.0.0/16", ["192.168.1.1", "10.0.0.1"], MatchAny)', 'cidr_match("::1/128", "::1")'],
+        ['cidr_match("10.0.0.0/99", "10.1.2.3")', 'cidr_match("nonsense", "10.1.2.3")', 'cidr_match("10.0.0.0/x", "10.1.2.3")', 'cidr_match("/8", "10.1.2.3")',
+         'cidr_match("10.0.0.0/8")', 'cidr_match()', 'cidr_match("::1/999", "::1")']),
+    'math': (
+        ['Math.sqrt(4)', 'Math.pow(2, 10)', 'Math.max(1, 7, 3)', 'Math.min(4, 2)', 'Math.floor(2.5)', 'Math.abs(-3)', 'Math.round(2.5)', 'Math.isnan(1)', 'Math.sign(-2)'],
+        ['Math.sqrt("x")', 'Math.pow(2)', 'Math.round("a")', 'Math.floor([ ])', 'Math.abs({ })', 'Math.sqrt()', 'Math.nosuch(1)', 'Math.max("a", 1)', 'Math.exp("1x")']),
+    'datetime': (
+        ['DateTime(2020, 1, 2).format("%Y")', 'DateTime(86400).to_string().len() > 0', 'typeof(DateTime(2020, 1, 2, 3, 4, 5)).name', 'DateTime(0).value'],
+        ['DateTime("x")', 'DateTime(1, 2)', 'DateTime(2020, 1, 2).format()', 'DateTime(2020, 1, 2, 3, 4)', 'DateTime([ ])', 'DateTime(1).nosuch()']),
+    'json': (
+        ['Json.decode("[1,2]")', 'Json.decode("{\\"a\\":[true,null]}")', 'Json.decode("\\"x\\"")', 'Json.decode(" 7 ")', 'Json.encode([1, "a"])'],
+        ['Json.decode("[1,")', 'Json.decode("{\\"a\\":}")', 'Json.decode("")', 'Json.decode("nul")', 'Json.decode("[1 2]")', 'Json.decode("{\\"a\\" 1}")', 'Json.decode("\\"abc")', 'Json.decode("[" + "[" * 5000)',
+         'Json.decode("01")', 'Json.decode("[1]x")', 'Json.decode()', 'Json.encode()']),
+    'objects': (
+        ['get_object(Host, "nosuch")', 'get_objects(Host).len()', 'get_object(Service, "a!b")', 'get_host("nosuch")', 'get_service("a", "b")', 'get_objects(CheckCommand).len() >= 0'],
+        ['get_objects(5)', 'get_object(Host)', 'get_objects("NoSuchType")', 'get_objects()', 'get_object()', 'get_objects(nosuchtype)', 'get_host()', 'get_service("a")', 'get_objects(Number)']),
+    'misc-native': (
+        ['escape_shell_arg("a b")', 'basename("/a/b")', 'dirname("/a/b")', 'parse_performance_data("a=1")  != null', 'string(5)', 'len(5)', '"abc".substr(1, 9)', 'null.x.y', 'regex("x{99999999999}", "a")', 'number("7")', 'bool("x")', 'len([1, 2])', 'range(3)', 'keys({ a = 1 })',
+         'typeof(1).name', 'match("a*", "abc")', 'union([2, 1], [1])', 'intersection([1, 2], [2])', '"abc".substr(1, 1)', '[3, 1].sort()', '"a,b".split(",")', '({ a = 1 }).get("a")'],
+        ['escape_shell_arg()', 'basename()', 'parse_performance_data("=")', 'number("x")', 'number([1])', 'range()', 'range(1, 2, 3, 4)', 'keys(5)', 'match("a")', 'union(5)', 'intersection(1)',
+         '"abc".substr(10)', '[1].get(5)', '[1].remove(3)', '1 / 0', '5 % 0', 'nosuchvar.foo', 'nosuchfn(1)', '[1] <= [2]', '({ }) + 1', 'String(1, 2)', 'typeof()', '*null', '*5',
+         '"x".nosuch()', '[3, "a", { }].sort()', '({ }).get()', 'Number("1x")', '~"a"', '"a" << 1', 'getenv()', 'log()']),
+}
+
+
+def fam_error_retry(rnd, n_random):
+    """error-then-retry: inside ONE case, in one environment and on one stack: A (succeeds), B (fails), B, B, A, B compiled anew, a loop
+    that evaluates B three times under try/except, A - identical expressions must have identical outcomes (B an error every time, A the same
+    value every time).  Natives that are only followed as outcome classes and modelled ones alike; B in the same group as A (a call that left
+    state behind in the native) and across groups."""
+    cs = []
+    seen = set()
+    def add(a, b, tag, modes):
+        loop = 'var log = [ ]\nfor (vi in range(3)) { try { log.add(%s) } except { log.add("error") } }\nlog\n' % b
+        for mode in modes:
+            key = (a, b, mode)
+            if key in seen: continue
+            seen.add(key)
+            cs.append({'lines': ['dsl_retry a=%s b=%s loop=%s mode=%s tag=%s wa=value wb=error' % (hx(a + '\n'), hx(b + '\n'), hx(loop), mode, tag)],
+                       'tags': {'family': 'error-then-retry', 'src': ('A: %s\nB: %s' % (a, b))[:300], 'group': tag, 'mode': mode}})
+    allmodes = ('main', 'thread', 'coro')
+    for g, (oks, bads) in RETRY_GROUPS.items():
+        # every failing call once after a succeeding call of the same group (main stack), a rotating third of them on the small stacks too
+        for i, b in enumerate(bads):
+            a = oks[i % len(oks)]
+            add(a, b, g, ('main',))
+            add(oks[(i + 1) % len(oks)], b, g, (allmodes[1 + (i + rnd.randint(0, 1)) % 2],))
+    groups = sorted(RETRY_GROUPS)
+    for _ in range(n_random):
+        ga = rnd.choice(groups)
+        gb = ga if rnd.random() < 0.6 else rnd.choice(groups)
+        add(rnd.choice(RETRY_GROUPS[ga][0]), rnd.choice(RETRY_GROUPS[gb][1]), gb if ga == gb else ga + '+' + gb, (rnd.choice(allmodes),))
+    return cs
+
+
 NEVER_VALID = ['$', '@@', '`']      # characters that are no terminal of the grammar at all (the lexer hands them through as themselves)
 CLOSERS = {')': '(', ']': '[', '}': '{'}
 
@@ -2086,6 +2155,7 @@ def generate(seed, tier):
     cases, dropped = screen(cases)
     _last_dropped[0] = dropped
     cases += fam_syntax(rnd, {'quick': 150, 'thorough': 1500, 'search': 300}.get(tier, 150))
+    cases += fam_error_retry(rnd, {'quick': 300, 'thorough': 3000, 'search': 600}.get(tier, 300))
     cases += fam_hostile(rnd, {'quick': 300, 'thorough': 4000, 'search': 600}.get(tier, 300), {'quick': 300, 'thorough': 4000, 'search': 600}.get(tier, 300))
     return cases
 
@@ -2137,6 +2207,8 @@ def extra_stats(cases, impl):
                 res['crash_lines'] += 1
             elif l.startswith('hostile'):
                 res['hostile_ok'] += 1
+            elif l.startswith('retry ok'):
+                res['error_then_retry_consistent'] += 1
             elif l.startswith('syntax '):
                 res['syntax_located'] += 1
     res['dropped_outside_exact_domain'] = _last_dropped[0]
